@@ -125,6 +125,21 @@ def _class_decide(cls, ext_ref):
             return True if any(d is True for d in ds) else (None if any(d is None for d in ds) else False)
         if isinstance(t, ast.Call) and call_name(t) == "startswith" and t.args and isinstance(t.args[0], ast.Constant) and t.args[0].value == "NP2":
             return cls["np2"]
+        if isinstance(t, ast.Compare) and len(t.ops) == 1 and isinstance(t.left, ast.Call) and call_name(t.left) == "_get_type_from_meta":
+            # stream type of the file: 'nidq' for the nidq class, 'ap' / 'lf' for the imec classes
+            op, r = t.ops[0], t.comparators[0]
+            if isinstance(op, (ast.Eq, ast.NotEq)) and isinstance(r, ast.Constant) and isinstance(r.value, str):
+                res = (not cls["imec"]) if r.value == "nidq" else (cls["imec"] if r.value in ("ap", "lf") else False)
+                if r.value in ("ap", "lf"):
+                    return None   # which of the two imec streams is not a class fact
+                return res if isinstance(op, ast.Eq) else not res
+            if isinstance(op, (ast.In, ast.NotIn)) and isinstance(r, (ast.List, ast.Tuple, ast.Set)) and all(isinstance(x, ast.Constant) for x in r.elts):
+                vals = {x.value for x in r.elts}
+                if vals == {"ap", "lf"}:
+                    return cls["imec"] if isinstance(op, ast.In) else not cls["imec"]
+                if vals == {"nidq"}:
+                    return (not cls["imec"]) if isinstance(op, ast.In) else cls["imec"]
+            return None
         if isinstance(t, ast.Compare) and len(t.ops) == 1:
             l, op, r = t.left, t.ops[0], t.comparators[0]
             if isinstance(op, (ast.In, ast.NotIn)) and isinstance(l, ast.Constant):
@@ -155,6 +170,7 @@ def conversion_layouts(ctx):
     repo = ctx.repo
     fi = repo.fn(FN)
     nfields = 5
+    group_fields = None
     for c in find(fi.node, ast.Call, lambda c: call_name(c) == "findall"):
         pat = c.args[0] if c.args else None
         if isinstance(pat, ast.Constant) and isinstance(pat.value, str) and "imroTbl" in src(c):
@@ -164,6 +180,27 @@ def conversion_layouts(ctx):
             except _re.error:
                 groups = 0
             nfields = groups if groups > 1 else pat.value.count("[0-9]*")
+            # several groups each capturing ONE of the number fields: the entry has as many fields as number tokens, group k is the field it encloses
+            toks, depth, cur, gf = 0, 0, None, []
+            i_ = 0
+            pv = pat.value
+            while i_ < len(pv):
+                if pv.startswith("[0-9]*", i_):
+                    if depth > 0:
+                        cur.append(toks)
+                    toks += 1
+                    i_ += 6
+                    continue
+                if pv[i_] == "(":
+                    depth += 1
+                    cur = []
+                elif pv[i_] == ")" and depth > 0:
+                    depth -= 1
+                    gf.append(cur)
+                i_ += 1
+            if groups > 1 and all(len(g_) == 1 for g_ in gf) and len(gf) == groups:
+                nfields = toks
+                group_fields = [g_[0] for g_ in gf]
     from sa.regions import UndecidedBranch
     out = {}
     for cname, cls in DEVICE_CLASSES.items():
@@ -173,6 +210,7 @@ def conversion_layouts(ctx):
             choices = pending.pop(0)
             ref = [None]
             ev = MetaEval(resolve=_resolver(repo, fi), nfields=nfields)
+            ev.group_fields = group_fields
             base_decide = _class_decide(cls, ref)
 
             def decide(t, base_decide=base_decide, choices=choices):
@@ -486,7 +524,14 @@ def d3_reader_writer(ctx):
     pats = [c2 for c2 in find(rd.node, ast.Call, lambda c2: call_name(c2) == "fullmatch")]
     if pats:
         p = pats[0].args[0]
-        ctx.check(isinstance(p, ast.Constant) and set(p.value) <= set("[0-9,.]*+"), rd, pats[0], pats[0],
+        f_ = pats[0].func
+        if isinstance(f_, ast.Attribute) and isinstance(f_.value, ast.Name) and f_.value.id not in ("re", "regex"):
+            # a pattern compiled once at import: NAME = re.compile(P) at module level; NAME.fullmatch(s) is re.fullmatch(P, s)
+            for st_ in rd.module.tree.body:
+                if isinstance(st_, ast.Assign) and any(isinstance(t_, ast.Name) and t_.id == f_.value.id for t_ in st_.targets) and isinstance(st_.value, ast.Call) \
+                        and call_name(st_.value) == "compile" and st_.value.args:
+                    p = st_.value.args[0]
+        ctx.check(isinstance(p, ast.Constant) and isinstance(p.value, str) and set(p.value) <= set("[0-9,.]*+"), rd, pats[0], pats[0],
                   "numeric coercion is restricted to digits/comma/dot strings",
                   f"numeric pattern {src(p)} would coerce non-numeric strings", key="num-pattern")
     # tilde keys
